@@ -106,5 +106,5 @@ func extractFile(r io.Reader, dst string, mode, mask os.FileMode) (err error) {
 	if _, err = io.Copy(file, r); err != nil {
 		err = errs.Wrap(err)
 	}
-	return nil
+	return err
 }
